@@ -452,6 +452,14 @@ var commentKinds = []struct{ name, class, text string }{
 	{"docblock", "docblock", "/**%s*/"},
 }
 
+// sameOwnHalves: the single-comment kinds (indices into commentKinds) a same-line + own-line kind is made of.
+var sameOwnHalves = map[string][2]int{
+	"same+own-block-line":  {0, 2},
+	"same+own-line-line":   {1, 2},
+	"same+own-block-block": {0, 3},
+	"same2+own-block":      {0, 3},
+}
+
 // afterSeparator: token classes after which list elements / members / statements start.
 var afterSeparator = map[string]bool{",": true, "(": true, "[": true, "{": true, ":": true, ";": true, "<": true}
 
@@ -527,7 +535,17 @@ func runC39(env *mc.Env) {
 					// pairs additionally at every gap that follows a separator or an opener
 					continue
 				}
-				jobs = append(jobs, single(p, prog, g, k, "c1"))
+				j := single(p, prog, g, k, "c1")
+				if halves, ok := sameOwnHalves[commentKinds[k].name]; ok {
+					// coarse position class, as for comment pairs: declaration / statement / template
+					_, host, _ := strings.Cut(pairCtx(j.ctx, j.ctx), "|")
+					_, host, _ = strings.Cut(host, "|")
+					j.ctx = "sameown|" + commentKinds[k].class + "|" + host
+					// a same-line + own-line pair that fails is attributed to one of its
+					// single-comment halves if that half fails alone (it carries no new information)
+					j.alts = []c39Job{single(p, prog, g, halves[0], "c1"), single(p, prog, g, halves[1], "c1B")}
+				}
+				jobs = append(jobs, j)
 			}
 		}
 	}
